@@ -488,6 +488,9 @@ class C27(Check):
         # labels / non-triviality from the model
         conflict = False
         for f in case["files"]:
+            for k, (_v, src) in effective(case, f).items():
+                if src != "default":
+                    out.label("value-from:" + src.split(":")[0])
             for k in PROBES:
                 vals = [s[k] for _, s in sources(case, f) if k in s]
                 if len(set(map(str, vals))) >= 2:
